@@ -354,9 +354,11 @@ def classify_failure(spec, aops, c, stale):
     cc, bc = idx(aops, 'close', 'cache'), idx(aops, 'close', 'build')
     do, dc = idx(aops, 'open', 'deps'), idx(aops, 'close', 'deps')
     bf = 'Makefile' if spec['backend'] == 'make' else 'build.ninja'
-    if spec['find'] and cc is not None and bc is not None and cc < c <= bc and bf in stale:
+    script_untouched = spec['edit'] in ('dir', 'touch')      # build.bfg itself is not newer than the build file
+    if spec['find'] and script_untouched and cc is not None and bc is not None and cc < c <= bc and bf in stale:
         cls.append(WINDOW_CLASS)
-    if spec['find'] and spec['backend'] == 'make' and do is not None and c == do + 1 and dc == do + 1 and bf in stale:
+    if spec['find'] and script_untouched and spec['backend'] == 'make' and do is not None and c == do + 1 \
+            and dc == do + 1 and bf in stale:
         cls.append(DEPFILE_CLASS)
     if bc is not None and c > bc and set(stale) == {'compile_commands.json'}:
         cls.append(COMPDB_CLASS)
@@ -675,7 +677,7 @@ def run(rep):
     thorough = rep.tier == 'thorough'
     load_own_findings(rep)
     rep.proof_stage(coqchk=thorough)
-    fault_specs = gen_specs(rng, 10 if thorough else 3, fixed=QUICK_FIXED)
+    fault_specs = gen_specs(rng, 16 if thorough else 3, fixed=QUICK_FIXED)
     have = [spec_key(x) for x in fault_specs]
     fault_specs += [c for c in load_corpus() if spec_key(c) not in have]      # past witnesses: listed points only
     if thorough:
